@@ -66,12 +66,17 @@ def build_and_run(slot, name, feats, corpus):
         return {"name": name, "features": feats, "built": False, "log": p.stdout[-4000:], "build_s": time.time() - t0}
     exe = os.path.join(d, "target", "debug", "featdrv")
     try:
-        r = subprocess.run([exe, corpus], stdout=subprocess.PIPE, stderr=subprocess.PIPE, text=True, timeout=600)
+        # bytes, not text: the renderings contain characters such as U+0085 that str.splitlines() and
+        # universal-newline decoding treat as line ends (false alarm met at seed 6, DESIGN 6.3)
+        r = subprocess.run([exe, corpus], stdout=subprocess.PIPE, stderr=subprocess.PIPE, timeout=600)
     except subprocess.TimeoutExpired:
-        return {"name": name, "features": feats, "built": True, "ran": False, "log": "driver timed out", "build_s": time.time() - t0}
+        return {"name": name, "features": feats, "built": True, "ran": False, "timed_out": True, "log": "driver timed out", "build_s": time.time() - t0}
     if r.returncode != 0:
-        return {"name": name, "features": feats, "built": True, "ran": False, "log": (r.stderr or "")[-3000:], "build_s": time.time() - t0}
-    return {"name": name, "features": feats, "built": True, "ran": True, "out": r.stdout.splitlines(), "build_s": time.time() - t0}
+        return {"name": name, "features": feats, "built": True, "ran": False, "log": (r.stderr or b"").decode("utf-8", "replace")[-3000:], "build_s": time.time() - t0}
+    lines = r.stdout.decode("utf-8", "replace").split("\n")
+    if lines and lines[-1] == "":
+        lines.pop()
+    return {"name": name, "features": feats, "built": True, "ran": True, "out": lines, "build_s": time.time() - t0}
 
 
 def frame_number(hexframe):
@@ -155,7 +160,9 @@ def main(prop, tier, seed, replay_path):
         full = build_and_run(0, "full_default_features", ["all_msgs", "std"], corpus)
         if not (full.get("built") and full.get("ran")):
             inconclusive.append("reference configuration (all_msgs, std) did not build/run: " + full.get("log", "")[-1500:])
-    frames = open(corpus).read().splitlines() if os.path.exists(corpus) else []
+    frames = [l for l in open(corpus).read().split("\n") if l] if os.path.exists(corpus) else []
+    if full and full.get("ran") and len(full["out"]) != len(frames):
+        inconclusive.append("reference configuration printed %d lines for %d frames" % (len(full["out"]), len(frames)))
     numbers = [frame_number(h) for h in frames]
     if not inconclusive:
         # longest-build-first is unknown; simple static partition over slots
@@ -187,6 +194,11 @@ def main(prop, tier, seed, replay_path):
         if not r["built"]:
             violations.append(("C19.builds|%s" % name, "configuration %s (features %s, default-features off) does not build:\n%s" % (name, fl, r["log"][-1500:]), {"name": name, "features": fl}))
             per_cfg[name] = "BUILD FAILED"
+            continue
+        if not r.get("ran") and r.get("timed_out"):
+            # a wall-clock limit on a loaded machine is not a verdict
+            inconclusive.append("driver of configuration %s exceeded its 600 s wall-clock limit" % name)
+            per_cfg[name] = "TIMED OUT"
             continue
         if not r.get("ran"):
             violations.append(("C19.driver_runs|%s" % name, "driver of configuration %s failed: %s" % (name, r.get("log", "")[-800:]), {"name": name, "features": fl}))
